@@ -212,6 +212,21 @@ class Lifter:
             val = self.ev(s.value, env, fn, depth, owner)
             shape = None
             v = s.value
+            newaxes = None
+            if isinstance(v, ast.Subscript) and isinstance(
+                    v.value, ast.Call) and isinstance(
+                    v.value.func, ast.Attribute) and v.value.func.attr == \
+                    'reshape':
+                # x.reshape(a, b, c)[:, np.newaxis, :]: the same as a reshape
+                # with a unit axis at that place
+                elts = v.slice.elts if isinstance(v.slice, ast.Tuple) \
+                    else [v.slice]
+                if all((isinstance(e_, ast.Slice) and e_.lower is None
+                        and e_.upper is None and e_.step is None)
+                       or U(e_) in ('np.newaxis', 'None') for e_ in elts):
+                    newaxes = [k_ for k_, e_ in enumerate(elts)
+                               if U(e_) in ('np.newaxis', 'None')]
+                    v = v.value
             if isinstance(v, ast.Call) and isinstance(
                     v.func, ast.Attribute) and v.func.attr == 'reshape':
                 # keep `<name>.shape` current across a reshape
@@ -222,6 +237,11 @@ class Lifter:
                                 for d in dims)
                     if not all(isinstance(x, sp.Expr) for x in shape):
                         shape = None
+                    elif newaxes:
+                        lst = list(shape)
+                        for k_ in newaxes:
+                            lst.insert(k_, sp.Integer(1))
+                        shape = Tup(lst)
                 except Unsupported:
                     shape = None
                 self.reshapes.append((v, shape))
